@@ -203,6 +203,8 @@ fn main() {
         "siglong" => suites::signal::run_long(&ctx),
         "sigreset" => suites::signal::run_reset(&ctx),
         "cfgfuzz" => suites::config::run(&ctx),
+        "app" => suites::app::run_app(&ctx),
+        "appfault" => suites::app::run_fault(&ctx),
         "expand" => {
             // stdin: requests whose hashes disagreed; output: the individual requests they stand for
             use std::io::BufRead;
